@@ -7,6 +7,7 @@ import (
 	"net"
 	"net/http"
 	"strings"
+	"sync"
 	"time"
 )
 
@@ -23,19 +24,32 @@ func vC13HsExpect(kind, tamper int) int {
 		return 1
 	}
 	switch tamper {
-	case 0, 7, 8, 9:
+	case 0, 7, 8, 9, 12, 13, 14:
 		return 0
 	}
 	return 1
 }
 
-func vC13RunHandshake(c vSx) (obs vSx, oracle string) {
+func vC13Strs(xs ...string) vSx {
+	var l []vSx
+	for _, x := range xs {
+		l = append(l, vS(x))
+	}
+	return vLs(l)
+}
+
+// returns the case completed with the facts the model decides on, the observation and the
+// direct-oracle verdict
+func vC13RunHandshake(c vSx) (cout vSx, obs vSx, oracle string) {
 	kind, tamper := c.l[1].int(), c.l[2].int()
+	cout = vL(vZ(4), vI(kind), vI(tamper))
 	outcome := 1
 	if kind == 0 {
+		var sentKey, sentAcc string
+		var keyMu sync.Mutex
 		ln, err := net.Listen("tcp", "127.0.0.1:0")
 		if err != nil {
-			return vL(vZ(1), vZ(60)), "listen: " + err.Error()
+			return cout, vL(vZ(1), vZ(60)), "listen: " + err.Error()
 		}
 		defer ln.Close()
 		go func() {
@@ -51,6 +65,7 @@ func vC13RunHandshake(c vSx) (obs vSx, oracle string) {
 			}
 			key := req.Header.Get("Sec-Websocket-Key")
 			acc := vC13AcceptKey(key)
+
 			status := "101 Switching Protocols"
 			up, conn, ext := "Upgrade: websocket\r\n", "Connection: Upgrade\r\n", ""
 			switch tamper {
@@ -75,25 +90,49 @@ func vC13RunHandshake(c vSx) (obs vSx, oracle string) {
 			case 7:
 				ext = "Sec-WebSocket-Extensions: permessage-deflate; server_no_context_takeover; client_no_context_takeover\r\n"
 			}
+			keyMu.Lock()
+			sentKey, sentAcc = key, acc
+			keyMu.Unlock()
 			fmt.Fprintf(nc, "HTTP/1.1 %s\r\n%s%sSec-WebSocket-Accept: %s\r\n%s\r\n", status, up, conn, acc, ext)
 			io.Copy(ioutil_Discard{}, nc)
 		}()
 		d := Dialer{HandshakeTimeout: 3 * time.Second, EnableCompression: tamper == 6 || tamper == 7}
 		cc, _, err := d.Dial("ws://"+ln.Addr().String()+"/", nil)
-		if err == nil {
+		code, z := 0, false
+		switch {
+		case err == nil:
 			outcome = 0
-			if tamper == 7 && cc.newCompressionWriter == nil {
+			z = cc.newCompressionWriter != nil
+			if tamper == 7 && !z {
 				oracle = "extension accepted by the server but compression not enabled on the client"
 			}
 			cc.Close()
+		case err == ErrBadHandshake:
+			code = 1
+		case err == errInvalidCompression:
+			code = 2
+		default:
+			code = 3
 		}
+		// the facts Dial tests, as the scripted server produced them
+		keyMu.Lock()
+		k, a := sentKey, sentAcc
+		keyMu.Unlock()
+		b := func(x bool) vSx { return vBool(x) }
+		cout = vL(vZ(4), vZ(0), vI(tamper), vS(k), vL(b(tamper != 4), b(tamper != 2), b(tamper != 3), vS(a),
+			b(tamper == 6 || tamper == 7), b(tamper == 6 || tamper == 7), b(tamper == 7)))
+		if outcome != vC13HsExpect(kind, tamper) && oracle == "" {
+			oracle = fmt.Sprintf("handshake kind %d tamper %d: outcome %d, RFC 6455 section 4 requires %d", kind, tamper, outcome, vC13HsExpect(kind, tamper))
+		}
+		return cout, vL(vZ(0), vI(code), vBool(z)), oracle
 	} else {
 		vC13Start()
-		vC13Up = Upgrader{ReadBufferSize: 1024, WriteBufferSize: 1024, Subprotocols: []string{"p1", "p2"}}
+		vC13Up = Upgrader{ReadBufferSize: 1024, WriteBufferSize: 1024, Subprotocols: []string{"p1", "p2"},
+			EnableCompression: tamper == 11 || tamper == 12}
 		addr := strings.TrimPrefix(vC13Srv.URL, "http://")
 		nc, err := net.Dial("tcp", addr)
 		if err != nil {
-			return vL(vZ(1), vZ(61)), "dial: " + err.Error()
+			return cout, vL(vZ(1), vZ(61)), "dial: " + err.Error()
 		}
 		defer nc.Close()
 		method := "GET"
@@ -119,6 +158,35 @@ func vC13RunHandshake(c vSx) (obs vSx, oracle string) {
 			hdr["Upgrade"] = "WebSocket"
 		case 9:
 			hdr["Sec-WebSocket-Protocol"] = "p0, p2, p1"
+		case 10:
+			hdr["Sec-WebSocket-Key"] = "abc" // not 16 base64-encoded bytes: the library accepts it
+		case 11:
+			hdr["Sec-WebSocket-Extensions"] = "permessage-deflate; server_max_window_bits=10"
+		case 12:
+			hdr["Sec-WebSocket-Extensions"] = "x-foo; a=1, permessage-deflate; client_max_window_bits"
+		case 13:
+			hdr["Sec-WebSocket-Extensions"] = "permessage-deflate"
+		case 14:
+			hdr["Sec-WebSocket-Protocol"] = "q1, q2"
+		}
+		// the facts Upgrade tests, transcribed from what the tamper does to the request
+		{
+			b := func(x bool) vSx { return vBool(x) }
+			protos, exts := vL(), vL()
+			switch tamper {
+			case 9:
+				protos = vC13Strs("p0", "p2", "p1")
+			case 14:
+				protos = vC13Strs("q1", "q2")
+			case 11, 13:
+				exts = vC13Strs("permessage-deflate")
+			case 12:
+				exts = vC13Strs("x-foo", "permessage-deflate")
+			}
+			cout = vL(vZ(4), vZ(1), vI(tamper),
+				vL(b(tamper != 1), b(false), b(tamper != 2), b(tamper != 3), b(tamper != 4), b(tamper != 6),
+					vS(hdr["Sec-WebSocket-Key"]), protos, exts),
+				vL(vZ(1), vC13Strs("p1", "p2"), vS(""), b(tamper == 11 || tamper == 12)))
 		}
 		req := method + " /x HTTP/1.1\r\n"
 		for k, v := range hdr {
@@ -141,11 +209,23 @@ func vC13RunHandshake(c vSx) (obs vSx, oracle string) {
 		}
 		if err == nil && resp.StatusCode == 101 {
 			outcome = 0
-			if got, want := resp.Header.Get("Sec-Websocket-Accept"), "s3pPLMBiTxaQ9kYGzzhZRbK+xOo="; got != want {
-				oracle = fmt.Sprintf("accept key %q, RFC 6455 section 1.3 example gives %q", got, want)
+			ext := resp.Header.Get("Sec-Websocket-Extensions")
+			obs = vL(vZ(0), vZ(0), vS(resp.Header.Get("Sec-Websocket-Accept")), vS(resp.Header.Get("Sec-Websocket-Protocol")),
+				vBool(strings.Contains(ext, "permessage-deflate")))
+			if got, want := resp.Header.Get("Sec-Websocket-Accept"), vC13AcceptKey(hdr["Sec-WebSocket-Key"]); got != want {
+				oracle = fmt.Sprintf("accept key %q, SHA-1/base64 of key and GUID gives %q", got, want)
+			}
+			if tamper != 10 && resp.Header.Get("Sec-Websocket-Accept") != "s3pPLMBiTxaQ9kYGzzhZRbK+xOo=" {
+				oracle = "accept key differs from the RFC 6455 section 1.3 example"
 			}
 			if !strings.EqualFold(resp.Header.Get("Upgrade"), "websocket") || !strings.EqualFold(resp.Header.Get("Connection"), "upgrade") {
 				oracle = "101 response without Upgrade: websocket / Connection: Upgrade"
+			}
+			if ext != "" && tamper != 11 && tamper != 12 {
+				oracle = "extension in the response although none was offered or enabled: " + ext
+			}
+			if (tamper == 11 || tamper == 12) && !(strings.Contains(ext, "server_no_context_takeover") && strings.Contains(ext, "client_no_context_takeover")) {
+				oracle = "accepted permessage-deflate without the no_context_takeover parameters: " + ext
 			}
 			if tamper == 9 {
 				if p := resp.Header.Get("Sec-Websocket-Protocol"); p != "p1" {
@@ -154,20 +234,27 @@ func vC13RunHandshake(c vSx) (obs vSx, oracle string) {
 			} else if p := resp.Header.Get("Sec-Websocket-Protocol"); p != "" {
 				oracle = "subprotocol selected although none was offered: " + p
 			}
-			if e := resp.Header.Get("Sec-Websocket-Extensions"); e != "" {
-				oracle = "extension in the response although none was offered: " + e
+		} else if err == nil {
+			obs = vL(vZ(0), vZ(1), vI(resp.StatusCode))
+			if tamper == 0 {
+				oracle = "valid request refused"
 			}
-		} else if err == nil && tamper != 0 {
 			want := map[int]int{1: 405, 2: 400, 3: 400, 4: 400, 5: 400, 6: 403}[tamper]
 			if want != 0 && resp.StatusCode != want {
 				oracle = fmt.Sprintf("status %d, want %d", resp.StatusCode, want)
 			}
 		}
 	}
-	if outcome != vC13HsExpect(kind, tamper) && oracle == "" {
+	// tampers 10 and 11 are accepted by the library although RFC 6455 4.2.1 item 5 / RFC 7692 7.1.2.1
+	// would refuse or answer differently (inherited from upstream, outside the property: the
+	// library's own client never sends such a request); they are compared with the model only
+	if tamper != 10 && tamper != 11 && outcome != vC13HsExpect(kind, tamper) && oracle == "" {
 		oracle = fmt.Sprintf("handshake kind %d tamper %d: outcome %d, RFC 6455 section 4 requires %d", kind, tamper, outcome, vC13HsExpect(kind, tamper))
 	}
-	return vL(vZ(0), vI(outcome)), oracle
+	if len(obs.l) == 0 {
+		obs = vL(vZ(1), vZ(62))
+	}
+	return cout, obs, oracle
 }
 
 type ioutil_Discard struct{}
